@@ -51,7 +51,7 @@ def remap(ss0, rows, rng, modes=None):
         modes = {ss0.models[m].group: 'keep' for m, _ in rows}
     groups = sorted({ss0.models[m].group for m, _ in rows})
     for g in groups:
-        mode = modes.get(g) or rng.choice(['keep', 'keep', 'str', 'int', 'int0'])
+        mode = modes.get(g) or rng.choice(['keep', 'keep', 'str', 'int', 'int0', 'digits'])
         olds = [d['idx'] for m, d in rows if ss0.models[m].group == g and 'idx' in d]
         mp = {}
         for k, o in enumerate(olds):
@@ -59,6 +59,8 @@ def remap(ss0, rows, rng, modes=None):
                 mp[o] = o
             elif mode == 'str':
                 mp[o] = '%s_%s' % (g[:4], o) if not (isinstance(o, str) and o.startswith(g[:4] + '_')) else o
+            elif mode == 'digits':
+                mp[o] = ('%d' if k % 3 else '%02d') % (k + 1)     # strings that look like numbers ('2', '07') stay strings
             elif mode == 'int0':
                 mp[o] = k               # numbering from zero: 0 is a legal index and falsy
             else:
